@@ -1,6 +1,7 @@
 import GoUefi.Driver.Util
 import GoUefi.Driver.Pkcs7
 import GoUefi.Model.Authenticode
+import GoUefi.Model.MultiFault
 import GoUefi.Spec.Authenticode
 namespace GoUefi.Drv
 open GoUefi
@@ -47,6 +48,26 @@ def handlePe (op : String) (args : List String) : Option String :=
     pure (match Impl.parse b facts with
       | .ok p => parsedStr p ++ " pre=" ++ hex (Impl.hashStream p)
       | o => o.cls)
+  | "pe.hashfault", [h, mode, j, kind] =>
+    -- Hash through a reader whose j-th ReadAt (counted from Hash's first read) misbehaves.
+    -- mode "fault": kind 0 error, 1 short+ErrUnexpectedEOF, 2 short+EOF, 3 nothing+EOF;
+    -- mode "eofwith": io.EOF reported together with the full j-th read; mode "old": the code before F21
+    let b := unhex h
+    if !sectionTableFits b then some "parse-err" else
+    some (match Impl.parse b (Impl.factsOf b) with
+      | .ok p =>
+        let env : Impl.RdEnv := if mode == "eofwith" then Impl.envEofWith (natArg j) else Impl.envFault (natArg j) (natArg kind)
+        let parts := p.parts.map (·.data)
+        if mode == "old" then
+          let ps := Impl.multiParts parts
+          (match Impl.copyAllOld env ps 32768 (ps.flatten.length + 1) 0 0 with
+           | (out, .none) => "ok " ++ hex (Exec.sha256 out)
+           | _ => "nil")
+        else
+          (match Impl.hashInputE env parts 32768 with
+           | some out => "ok " ++ hex (Exec.sha256 out)
+           | none => "nil")
+      | o => "parse-" ++ o.cls)
   | "pe.classify", h :: ps =>
     let b := unhex h
     some (" ".intercalate (ps.map fun p => match Spec.PE.classify b (natArg p) with
